@@ -1150,11 +1150,16 @@ private theorem conv_13_14_simple (d : Dict)
     · simp only [hemp, if_false, hts]
       cases ts <;> first | (exact absurd rfl hne) | rfl
 
-/-- **format_12_records_convert.** A format-12 record of that shape runs through 12→13→…→18 without any converter raising.
-    With `format_19_20_records_convert` this leaves 18→19 (the one with the host decode and the connection renames) as the
-    only modelled integer step whose success is not proved under a shape hypothesis. -/
-theorem format_12_records_convert (d : Dict) (h : Shape12 d) : (chain12_18 d).isSome = true := by
-  obtain ⟨⟨m, hm⟩, hresp, hws, ⟨rq, ts, hrq, hts⟩, ⟨cc, hcc⟩⟩ := h
+/-- **format_12_records_convert_spec.** … and what comes out: the client record gained `proxy_mode = "regular"`, and every top-level
+    key other than `version`, `marked`, `comment`, `timestamp_created`, `mode`, `client_conn` — in particular `request`, `response`,
+    `server_conn`, `id` — is what the file held. -/
+theorem format_12_records_convert_spec (d cc : Dict) (h : Shape12 d) (hcc : dget d (s "client_conn") = some (.dict cc)) :
+    ∃ d18, chain12_18 d = some d18 ∧
+      dget d18 (s "client_conn") = some (.dict (dset cc (s "proxy_mode") (.str (s "regular")))) ∧
+      ∀ key, (s "version" == key) = false → (s "marked" == key) = false → (s "comment" == key) = false →
+        (s "timestamp_created" == key) = false → (s "mode" == key) = false → (s "client_conn" == key) = false →
+        dget d18 key = dget d key := by
+  obtain ⟨⟨m, hm⟩, hresp, hws, ⟨rq, ts, hrq, hts⟩, _⟩ := h
   -- 12 → 13
   have s12 : conv_12_13 d = some (dset (setVersion d 13) (s "marked") (.str (if truthy m then s ":default:" else []))) := by
     have e : dget (setVersion d 13) (s "marked") = some m := by rw [← hm]; exact dget_dset_ne _ _ _ _ (by decide +kernel)
@@ -1198,11 +1203,29 @@ theorem format_12_records_convert (d : Dict) (h : Shape12 d) : (chain12_18 d).is
       k16 _ (by decide +kernel) (by decide +kernel), k15 _ (by decide +kernel), k14 _ (by decide +kernel) (by decide +kernel),
       k13 _ (by decide +kernel) (by decide +kernel)]
     exact hcc
-  have s17 : (conv_17_18 (dpop (setVersion d16 17) (s "mode"))).isSome = true := by
+  have s17 : conv_17_18 (dpop (setVersion d16 17) (s "mode")) =
+      some (dset (setVersion (dpop (setVersion d16 17) (s "mode")) 18) (s "client_conn")
+        (.dict (dset cc (s "proxy_mode") (.str (s "regular"))))) := by
     unfold conv_17_18 dupd; simp [ecc, asDict]
-  unfold chain12_18
-  simp only [Option.bind_eq_bind, s12, Option.bind_some, s13, s14, s15, s16]
-  exact s17
+  refine ⟨dset (setVersion (dpop (setVersion d16 17) (s "mode")) 18) (s "client_conn")
+      (.dict (dset cc (s "proxy_mode") (.str (s "regular")))), ?_, dget_dset_same _ _ _, ?_⟩
+  · unfold chain12_18
+    simp only [Option.bind_eq_bind, s12, Option.bind_some, s13, s14, s15, s16]
+    exact s17
+  · intro key a1 a2 a3 a4 a5 a6
+    rw [dget_dset_ne _ _ _ _ a6,
+      show dget (setVersion (dpop (setVersion d16 17) (s "mode")) 18) key = dget (dpop (setVersion d16 17) (s "mode")) key from
+        dget_dset_ne _ _ _ _ a1,
+      dget_dpop_ne _ _ _ a5,
+      show dget (setVersion d16 17) key = dget d16 key from dget_dset_ne _ _ _ _ a1,
+      k16 _ a1 a4, k15 _ a1, k14 _ a1 a3, k13 _ a1 a2]
+
+/-- **format_12_records_convert.** A format-12 record of that shape runs through 12→13→…→18 without any converter raising.
+    With `format_18_records_convert` and `format_19_20_records_convert`: every modelled step from 12 to 21 has a success theorem. -/
+theorem format_12_records_convert (d : Dict) (h : Shape12 d) : (chain12_18 d).isSome = true := by
+  obtain ⟨cc, hcc⟩ := h.client
+  obtain ⟨d18, h18, _⟩ := format_12_records_convert_spec d cc h hcc
+  rw [h18]; rfl
 
 -- non-vacuity: the record of the chain12_18 example has that shape
 example : Shape12 [(.str (s "version"), .int 12), (.str (s "marked"), .bool true),
@@ -1298,6 +1321,89 @@ theorem chain_request_preserved (d d' : Dict) (h : chain12_21 d = some d') :
   simp only [Option.bind_eq_bind, Option.bind_eq_some_iff] at h
   obtain ⟨d19, -, d20, -, h20⟩ := h
   exact conv_writes_next_version 20 _ d20 d' rfl h20
+
+
+/-! #### a format-12 record of the shape old releases wrote LOADS: the whole chain 12 → 21 succeeds and keeps the request -/
+
+/-- the connection records as formats 12 … 18 stored them (what 18→19 and the last two steps look at) -/
+structure ConnShape (cc sc : Dict) : Prop where
+  c_ext : ∃ tx, dget cc (s "tls_extensions") = some tx
+  c_est : ∃ te, dget cc (s "tls_established") = some te
+  c_addr : hostOkB (dget cc (s "address")) = true
+  c_sock : hostOkB (dget cc (s "sockname")) = true
+  c_tv : ∃ tv, dget cc (s "tls_version") = some tv
+  s_est : ∃ te, dget sc (s "tls_established") = some te
+  s_ip : hostOkB (dget sc (s "ip_address")) = true
+  s_src : hostOkB (dget sc (s "source_address")) = true
+  s_addr : hostOkB (dget sc (s "address")) = true
+  s_tv : ∃ tv, dget sc (s "tls_version") = some tv
+  s_sni : ∃ sni, dget sc (s "sni") = some sni ∧
+    (sni = .bool true → (dget sc (s "address") = some .null ∨ ∃ hh t, dget sc (s "address") = some (.list (hh :: t))))
+
+/-- **format_12_records_load.** Existence AND correctness for one whole format: a non-WebSocket format-12 record of the shape
+    mitmproxy 7 wrote (`Shape12`, `ConnShape`) is taken by the nine modelled converters 12→13→…→21 without any of them raising,
+    arrives at version 21, and carries the request that was recorded. -/
+theorem format_12_records_load (d cc sc : Dict) (h12 : Shape12 d) (hcc : dget d (s "client_conn") = some (.dict cc))
+    (hsc : dget d (s "server_conn") = some (.dict sc)) (hc : ConnShape cc sc) :
+    ∃ d', chain12_21 d = some d' ∧ dget d' (s "version") = some (.int 21) ∧ dget d' (s "request") = dget d (s "request") := by
+  obtain ⟨d18, h18, hcc18, hk⟩ := format_12_records_convert_spec d cc h12 hcc
+  have hsc18 : dget d18 (s "server_conn") = some (.dict sc) := by
+    rw [hk _ (by decide +kernel) (by decide +kernel) (by decide +kernel) (by decide +kernel) (by decide +kernel) (by decide +kernel)]
+    exact hsc
+  obtain ⟨⟨tx, a1⟩, ⟨te, a2⟩, a3, a4, ⟨tvc, a5⟩, ⟨te', b1⟩, b2, b3, b4, ⟨tvs, b5⟩, ⟨sni, b6, b7⟩⟩ := hc
+  have pm (key : Bytes) (hne : (s "proxy_mode" == key) = false) :
+      dget (dset cc (s "proxy_mode") (.str (s "regular"))) key = dget cc key := dget_dset_ne _ _ _ _ hne
+  have sh18 : Shape18 d18 := ⟨_, _, hcc18, hsc18,
+    ⟨tx, by rw [pm _ (by decide +kernel)]; exact a1⟩, ⟨te, by rw [pm _ (by decide +kernel)]; exact a2⟩,
+    by rw [pm _ (by decide +kernel)]; exact a3, by rw [pm _ (by decide +kernel)]; exact a4,
+    ⟨te', b1⟩, b2, b3, b4, sni, b6, b7⟩
+  obtain ⟨d19, h19, _⟩ := format_18_records_convert d18 sh18
+  obtain ⟨c18, s18, c19, s19, e1, e2, e3, e4, e5, e6⟩ := conv_18_19_spec d18 d19 h19
+  rw [hcc18] at e1
+  rw [hsc18] at e2
+  simp only [Option.some.injEq, Value.dict.injEq] at e1 e2
+  subst e1 e2
+  have tv1 : dget c19 (s "tls_version") = some tvc := by
+    rw [client_frame_18_19 _ _ _ e3 (by decide +kernel) (by decide +kernel) (by decide +kernel) (by decide +kernel)
+      (by decide +kernel) (by decide +kernel) (by decide +kernel) (by decide +kernel) (by decide +kernel),
+      pm _ (by decide +kernel)]
+    exact a5
+  have tv2 : dget s19 (s "tls_version") = some tvs := by
+    rw [server_frame_18_19 _ _ _ e4 (by decide +kernel) (by decide +kernel) (by decide +kernel) (by decide +kernel)
+      (by decide +kernel) (by decide +kernel) (by decide +kernel) (by decide +kernel) (by decide +kernel)
+      (by decide +kernel) (by decide +kernel) (by decide +kernel)]
+    exact b5
+  obtain ⟨d21, h21, _⟩ := format_19_20_records_convert d19 c19 s19 tvc tvs e5 e6 tv1 tv2
+  have hall : chain12_21 d = some d21 := by
+    unfold chain12_21
+    simp only [Option.bind_eq_bind, h18, Option.bind_some, h19, h21]
+  obtain ⟨r1, r2⟩ := chain_request_preserved d d21 hall
+  exact ⟨d21, hall, r2, r1⟩
+
+-- non-vacuity of `format_12_records_load`: a plain-HTTP flow as mitmproxy 7 stored it (bytes host in the client address, sni = True)
+private def ld_cc : Dict := [(.str (s "address"), .list [.bytes (s "127.0.0.1"), .int 50000]), (.str (s "sockname"), .list [.str (s "::1"), .int 8080]),
+  (.str (s "tls_extensions"), .null), (.str (s "tls_established"), .bool false), (.str (s "tls_version"), .null),
+  (.str (s "timestamp_start"), .int 5)]
+private def ld_sc : Dict := [(.str (s "address"), .list [.str (s "example.com"), .int 80]), (.str (s "ip_address"), .list [.str (s "93.184.216.34"), .int 80]),
+  (.str (s "source_address"), .null), (.str (s "sni"), .bool true), (.str (s "tls_established"), .bool false), (.str (s "tls_version"), .null),
+  (.str (s "via2"), .null)]
+private def ld_d : Dict := [(.str (s "version"), .int 12), (.str (s "marked"), .bool false),
+  (.str (s "request"), .dict [(.str (s "path"), .bytes (s "/x")), (.str (s "timestamp_start"), .int 5)]),
+  (.str (s "response"), .null), (.str (s "client_conn"), .dict ld_cc), (.str (s "server_conn"), .dict ld_sc),
+  (.str (s "websocket"), .null), (.str (s "mode"), .str (s "regular"))]
+example : ∃ d', chain12_21 ld_d = some d' ∧ dget d' (s "version") = some (.int 21) ∧ dget d' (s "request") = dget ld_d (s "request") := by
+  refine format_12_records_load ld_d ld_cc ld_sc ?_ ?_ ?_ ?_
+  · unfold ld_d
+    refine ⟨⟨.bool false, ?_⟩, Or.inl ?_, ?_, ⟨[(.str (s "path"), .bytes (s "/x")), (.str (s "timestamp_start"), .int 5)], .int 5, ?_, ?_⟩,
+      ⟨ld_cc, ?_⟩⟩ <;>
+    repeat (first | rw [dget_cons_same] | rw [dget_cons_ne _ _ _ _ (by decide +kernel)])
+  · unfold ld_d; repeat (first | rw [dget_cons_same] | rw [dget_cons_ne _ _ _ _ (by decide +kernel)])
+  · unfold ld_d; repeat (first | rw [dget_cons_same] | rw [dget_cons_ne _ _ _ _ (by decide +kernel)])
+  · refine ⟨⟨.null, ?_⟩, ⟨.bool false, ?_⟩, by decide +kernel, by decide +kernel, ⟨.null, ?_⟩, ⟨.bool false, ?_⟩,
+      by decide +kernel, by decide +kernel, by decide +kernel, ⟨.null, ?_⟩,
+      ⟨.bool true, ?_, fun _ => Or.inr ⟨.str (s "example.com"), [.int 80], ?_⟩⟩⟩ <;>
+    (first | unfold ld_cc | unfold ld_sc) <;>
+    repeat (first | rw [dget_cons_same] | rw [dget_cons_ne _ _ _ _ (by decide +kernel)])
 
 -- non-vacuity: a concrete format-12 record runs through the modelled chain 12 → 18 and keeps its request
 example :
